@@ -217,17 +217,46 @@ def oracle_plain(payload):
         return 'check_message raised ' + type(e).__name__
     got = canon_arg_tags(chk.recorded)
     ss, ds = ref_signature(kind, sf), ref_signature(kind, df)
-    if kind == 'python-brace':
+    # "reported iff the two signatures differ in the corresponding way": one verdict per class of difference
+    exp = set()
+    if kind == 'c':
+        s_t, d_t = ss[1], ds[1]
+        if len(d_t) > len(s_t):
+            exp.add('excess')
+        if len(d_t) < len(s_t):
+            exp.add('missing-n')
+        if any(a != b for a, b in zip(s_t, d_t)):
+            exp.add('type')
+    elif kind == 'python':
+        if len(ss[1]) != len(ds[1]):
+            exp.add('number')
+        sm, dm = dict(ss[2]), dict(ds[2])
+        if any(a != b for a, b in zip(ss[1], ds[1])) or any(sm[k] != dm[k] for k in sm if k in dm):
+            exp.add('type')
+        if set(dm) - set(sm):
+            exp.add('unknown')
+        if set(sm) - set(dm):
+            exp.add('missing')
+    elif kind == 'python-brace':
         # types are sets; a mismatch is an empty intersection, per key
         sm = {k: set(t) for k, t in ss[1]}
         dm = {k: set(t) for k, t in ds[1]}
-        differ = (set(sm) != set(dm)) or any(not (sm[k] & dm[k]) for k in sm if k in dm)
+        if any(not (sm[k] & dm[k]) for k in sm if k in dm):
+            exp.add('type')
+        if set(dm) - set(sm):
+            exp.add('unknown')
+        if set(sm) - set(dm):
+            exp.add('missing')
     else:
-        differ = ss != ds
-    if differ and got == 'none':
-        return 'signatures differ (%r vs %r) but nothing is reported' % (ss, ds)
-    if not differ and got != 'none':
-        return 'same signature %r but reported: %s' % (ss, got)
+        if set(ds[1]) - set(ss[1]):
+            exp.add('unknown')
+        if set(ss[1]) - set(ds[1]):
+            exp.add('missing')
+    rep = set() if got == 'none' else {t.split(' ')[0] for t in got.split(' | ')}
+    if exp - rep:
+        return 'signatures %r vs %r differ in %s but only %s is reported' % (ss, ds, sorted(exp - rep), got)
+    if rep - exp:
+        return 'signatures %r vs %r do not differ in %s but reported: %s' % (ss, ds, sorted(rep - exp), got)
     return None
 
 
